@@ -2,14 +2,34 @@
 
 package globalfilter
 
+// Contracts for property C02 (a GlobalFilter's before and after flows run around the main flow). Comment-only file.
+
 /*@
-// runs the before pipeline, the handler (which must be a pipeline) and the after pipeline (C02 verifies
-// Pipeline.HandleWithBeforeAfter); here: the handler given is the one that handles the request
+ghost var gfRan bool       // HandleWithBeforeAfter was called
+ghost var gfMain int       // ... on which pipeline
+ghost var gfBefore int     // ... with which before pipeline (0: none)
+ghost var gfAfter int      // ... and which after pipeline (0: none)
+
+pred loaded(v interface{}) := typeIs(v, "*pipeline.Pipeline") ? ifaceVal(v) : 0
+pred wfLoaded(v interface{}) := typeIs(v, "*pipeline.Pipeline") ==> ifaceVal(v) != 0 && pipeline.bound(ptr(ifaceVal(v), "*pipeline.Pipeline").flow)
+
+// runs the before pipeline, the handler (which must be a pipeline) and the after pipeline through
+// Pipeline.HandleWithBeforeAfter (verified under C02): whichever of the two global pipelines is configured is
+// passed on, independently of the other
 func (gf *GlobalFilter) Handle(ctx *context.Context, handler context.Handler)
-  trusted
-  requires gf != nil && ctx != nil
-  requires handler-is-a-pipeline: typeIs(handler, "*pipeline.Pipeline")
-  modifies outResp, outRespTyp, handledBy, handledCount
-  ensures handledCount == old(handledCount) + 1 && handledBy == ifaceVal(handler)
-  ensures an-http-response-left-by-a-pipeline-is-complete: outResp != 0 && outRespTyp == typeTag("*httpprot.Response") ==> allocated(ptr(outResp, "*httpprot.Response")) && ptr(outResp, "*httpprot.Response").Response != nil && ptr(outResp, "*httpprot.Response").Response.Header != nil
+  flag frame=unchecked
+  requires gf != nil && ctx != nil && context.respOK()
+  requires handler-is-a-pipeline: typeIs(handler, "*pipeline.Pipeline") && ifaceVal(handler) != 0 && pipeline.bound(ptr(ifaceVal(handler), "*pipeline.Pipeline").flow)
+  requires global-pipelines-are-bound: wfLoaded(gf.beforePipeline.v) && wfLoaded(gf.afterPipeline.v)
+  modifies outResp, outRespTyp, handledBy, handledCount, gfRan, gfMain, gfBefore, gfAfter
+  ensures the-handler-handles-the-request-once: handledCount == old(handledCount) + 1 && handledBy == ifaceVal(handler)
+  ensures an-http-response-left-by-a-pipeline-is-complete: context.respOK()
+  ensures the-main-flow-runs-between-the-configured-global-flows: gfRan && gfMain == ifaceVal(handler) && gfBefore == loaded(gf.beforePipeline.v) && gfAfter == loaded(gf.afterPipeline.v)
+  ghost at entry: gfRan := false
+  ghost at call[1] HandleWithBeforeAfter: gfRan := true
+  ghost at call[1] HandleWithBeforeAfter: handledCount := handledCount + 1
+  ghost at call[1] HandleWithBeforeAfter: handledBy := ref(p)
+  ghost at call[1] HandleWithBeforeAfter: gfMain := ref(p)
+  ghost at call[1] HandleWithBeforeAfter: gfBefore := ref(before)
+  ghost at call[1] HandleWithBeforeAfter: gfAfter := ref(after)
 @*/
